@@ -329,6 +329,7 @@ struct Report {
 
 fn ffi_params() -> Params {
     let mut p = Params::default().with_soft(3, 0);
+    p.lock_gone = false;
     p.p_unknown = 0; // not expressible through the C++ interface
     p.max_pkgs = 7;
     p
@@ -373,6 +374,7 @@ fn eval_solve(tape: &[u16]) -> Report {
         gen_case(&mut t, &ffi_params())
     } else {
         let mut p = Params::conflict_heavy().with_soft(3, 0);
+        p.lock_gone = false;
         p.p_unknown = 0;
         gen_case(&mut t, &p)
     };
